@@ -21,6 +21,11 @@ PLAN = {
     "C05": [
         part("cli", "TestC05", (120, 4000), (8, 16)),
         part("cli", "TestC05Histories", (30, 800), (8, 16), steps=30),
+        part("api", "TestC05API", (1500, 40000), (2, 8)),
+    ],
+    "C06": [
+        part("api", "TestC06Exhaustive", (1, 1), (16, 16)),
+        part("cli", "TestC06CLI", (30, 1500), (8, 16), steps=30),
     ],
     "C07": [part("cli", "TestC07", (40, 2000), (16, 16), steps=25)],
     "C08": [part("cli", "TestC08", (40, 2000), (16, 16), steps=30)],
@@ -28,13 +33,21 @@ PLAN = {
     "C10": [
         part("cli", "TestC10Exhaustive", (1, 1), (8, 16)),
         part("cli", "TestC10", (25, 1200), (8, 16), steps=30),
+        part("api", "TestC10API", (1000, 30000), (2, 8)),
     ],
     "C11": [part("cli", "TestC11", (30, 1500), (16, 16), steps=30)],
-    "C12": [part("cli", "TestC12CLI", (30, 1500), (4, 16))],
+    "C12": [
+        part("api", "TestC12API", (1500, 40000), (4, 16)),
+        part("cli", "TestC12CLI", (30, 1500), (4, 16)),
+    ],
     "C13": [part("cli", "TestC13", (40, 2000), (16, 16), steps=25)],
     "C14": [part("cli", "TestC14", (30, 600), (16, 16), steps={Q: 25, T: 60})],
     "C17": [part("cli", "TestC17", (40, 2000), (16, 16), steps=30)],
     "C18": [part("cli", "TestC18", (50, 3000), (16, 16), steps={Q: 30, T: 40})],
+    "C19": [
+        part("api", "TestC19Mutations", (1, 1), (1, 1)),
+        part("api", "TestC19Random", (6000, 100000), (4, 16)),
+    ],
     "C20": [part("cli", "TestC20", (60, 2500), (16, 16), steps=15)],
 }
 
@@ -57,6 +70,11 @@ RULES = {
            "0x00/0x20/0x0a/0x09/0x2f at offsets 0,9,19); histories with resets to recorded commits. Non-trivial = "
            ">= 3 entries with a nested directory, or a between-sibling family, or a space in a name, or a hostile id, "
            "or the empty snapshot; distinct by hash of the (path,id) set.",
+    "C06": "Exhaustive: all path sets up to size 4 (quick) / 5 (thorough) over a 22-path universe {a, a-, a., a0, 'a b', a(, a+, "
+           "a[, ab, ad, d, d-old, a/x, a/a, a-/x, a./x, ad/x, d/x, d/a(, 'a b/x', a(/x, d/d-old}, each in all (<= 3 elements) or 4 "
+           "insertion orders, followed by update, delete and reload, x ~40 query names; CLI: scenario machine (profile index). "
+           "Non-trivial = set containing two names where one is a prefix/substring of the other or a sibling sorting "
+           "between d and d/; distinct by (insertion order) resp. tracked path set.",
     "C07": "Scenario machine (profile diff). Non-trivial = staged difference with >= 2 kinds, or a between-sibling "
            "family present, or the refused-empty-commit path taken; distinct by (HEAD snapshot, staging area).",
     "C08": "Scenario machine (profile reset). Non-trivial = successful reset to n >= 1, or a refused one; distinct by "
@@ -81,6 +99,11 @@ RULES = {
     "C18": "Grammar over 19 sub-commands x flags x argument classes; one evaluation = one scenario of ~30 command "
            "lines. Non-trivial = command line run against a state other than 'one commit, clean', or invalid by "
            "construction; distinct by (sub-command, flags, argument classes, state class).",
+    "C19": "Mutations: for each valid file (blob, trees, commit with parent, index with 4 entries, HEAD, branch, config, "
+           "reflog with 4 records) every truncation and, at every (quick: every 3rd) position, deletion and 6 substitutions; "
+           "objects at compressed and content level; all ordered pairs of swapped object files. Random: arbitrary bytes, "
+           "hostile constants, splices of valid files, line garbage, compressed garbage. Non-trivial = the loader got "
+           "past its first validation step (decoded >= 1 entry/header); distinct by (loader, input bytes).",
     "C20": "Scenario machine (profile config). Non-trivial = >= 2 keys in >= 2 sections written, or a special value, "
            "or a local/global override exercised, or the unset-identity refusal; distinct by write sequence.",
 }
